@@ -259,10 +259,7 @@ func (s asciiString) Equals(other Value) bool {
 	}
 
 	if o, ok := other.(valueInt); ok {
-		if o1, e := s._toInt(strings.TrimSpace(string(s))); e == nil {
-			return o1 == int64(o)
-		}
-		return false
+		return s.ToNumber().StrictEquals(o)
 	}
 
 	if o, ok := other.(valueFloat); ok {
@@ -270,10 +267,7 @@ func (s asciiString) Equals(other Value) bool {
 	}
 
 	if o, ok := other.(valueBool); ok {
-		if o1, e := s._toFloat(strings.TrimSpace(string(s))); e == nil {
-			return o1 == o.ToFloat()
-		}
-		return false
+		return s.ToNumber().StrictEquals(o.ToNumber())
 	}
 
 	if o, ok := other.(*valueBigInt); ok {
